@@ -319,7 +319,7 @@ def build(tier, seed):
                               % (list(STAT_GENERATORS), list(LAZY))},
         'required_classes': ['decided', 'exact-tie', 'rounding-tie', 'exact-tie-lower', 'exact-tie-upper',
                              'precondition-false', 'precondition-false-raises', 'se-true', 'se-false',
-                             'start-eq-end', 'start-lt-end', 'user-measure-differs-from-arias',
+                             'start-eq-end', 'start-lt-end', 'user-measure-differs-from-arias', 'user-measures-alternating-on-one-object',
                              'scaling', 'zero-prefix-shift', 'zero-prefix-definition', 'nesting',
                              'brac-some-exceed', 'brac-none-exceeds', 'brac-exact-tie', 'brac-monotone',
                              'brac-joint-scaling', 'int-input', 'int-record-i64', 'int-record-list',
@@ -892,6 +892,42 @@ def run_case(case):
         except Exception:   # noqa
             held = False
         r.expect('purity.object', {'w': w, 'dt': dt}, held, 'the queries changed the record / dt of the object')
+    # ---- several anonymous and same-named user measures on ONE object, alternating (anything the library keeps between two
+    #      requests must be told apart by the measure itself, not by the function's name or by the object)
+    if n >= 2:
+        def _mk(kind):          # two anonymous functions
+            if kind == 'stair':
+                return lambda s_: np.cumsum(np.abs(np.asarray(s_.values, dtype=float)))
+            return lambda s_: np.cumsum(np.asarray(s_.values, dtype=float) ** 2)
+
+        def _mk2(kind):         # two functions of the same name (closures of one factory)
+            if kind == 'stair':
+                def measure(s_):
+                    return np.cumsum(np.abs(np.asarray(s_.values, dtype=float)))
+            else:
+                def measure(s_):
+                    return np.cumsum(np.asarray(s_.values, dtype=float) ** 2)
+            return measure
+        p_sel = sorted(set([p_def, 0, len(PAIRS) - 1, len(PAIRS) // 2]))
+        for dt in DTS:
+            dy = DYADIC_DT[dt]
+            for vname, mk in (('two lambdas', _mk), ('two functions of one name', _mk2)):
+                ok, sg2 = r.call('construct', {'w': w, 'dt': dt}, eqsig.AccSignal, a_f.copy(), dt)
+                if not ok:
+                    continue
+                fns = {'stair': mk('stair'), 'array': mk('array')}
+                for step, kind in enumerate(('stair', 'array', 'stair', 'array')):
+                    for p in p_sel:
+                        i, j = PAIRS[p]
+                        acc = acc_by[(kind, dy)][p]
+                        subf = lambda: {'w': w, 'dt': dt, 'start': FRACS[i], 'end': FRACS[j], 'se': True, 'same_object': vname,  # noqa
+                                        'request': step + 1, 'measure': 'anonymous-' + kind}
+                        r.states += 1
+                        ok, out = guarded(r, 'sigdur.user-measures-one-object', subf, acc.mode, cnt, im.calc_sig_dur, sg2,
+                                          FR_F[i], FR_F[j], fns[kind], True)
+                        if ok and acc.mode != 'none':
+                            cnt['user-measures-alternating-on-one-object'] += 1
+                            check_pair(r, 'sigdur.user-measures-one-object', subf, out, acc, dt, n)
     for asig, series in staircase.store.values():
         try:
             fresh = np.cumsum(np.abs(np.asarray(asig.values, dtype=float)))
